@@ -14,7 +14,7 @@ Ev == T.events[l]
 TInit == /\ tid \in 1..Len(Traces) /\ l = 1 /\ par = Traces[tid].par
          /\ bufs = (IF Traces[tid].par.mode = "join" THEN <<SumSeq(Traces[tid].par.chunks)>>
                     ELSE IF Traces[tid].par.fixed THEN NonEmpty(Traces[tid].par.chunks) ELSE Traces[tid].par.chunks)
-         /\ wire = 0 /\ budget = Traces[tid].par.budget /\ waited = 0 /\ st = "attempt" /\ blocks = 0
+         /\ wire = 0 /\ budget = Traces[tid].par.budget /\ waited = 0 /\ st = "attempt" /\ blocks = 0 /\ over = 0
 IsEvent(e) == l <= Len(T.events) /\ Ev.ev = e /\ l' = l + 1 /\ UNCHANGED tid
 TAccept == IsEvent("attempt") /\ Ev.k >= 0 /\ Ev.offered = Offered /\ Accept(Ev.k)
 TBlock == IsEvent("attempt") /\ Ev.k = 0 - 1 /\ Ev.offered = Offered /\ Block
